@@ -68,6 +68,7 @@ def parseOp (fs : List String) : Option Op :=
   | ["unsealfault", ns, id, now] => do pure (.unsealNsFault (← ns.toNat?) (← id.toNat?) (← now.toInt?))
   | ["nsreg", ns, ttl, max, ren, now] => do
     pure (.nsReg (← ns.toNat?) (← ttl.toInt?) (← max.toInt?) (← b? ren) (← now.toInt?))
+  | ["nsdelete", ns] => do pure (.nsDelete (← ns.toNat?))
   | ["seal", ns] => do pure (.sealNs (← ns.toNat?))
   | ["unseal", ns, now] => do pure (.unsealNs (← ns.toNat?) (← now.toInt?))
   | ["unsealbegin", ns, h, now] => do pure (.unsealBegin (← ns.toNat?) (← h.toNat?) (← now.toInt?))
